@@ -298,9 +298,187 @@ def classify_vfs_diff(tree, p, variant):
     return "zip-vfs-differs"
 
 
+# ----------------------------------------------------------------------------
+# oracle: whole requests, /XT/<sel> vs /XT.zip/<sel>, every protocol
+# ----------------------------------------------------------------------------
+REAL_ONLY = {"MBoxFolderHandler", "MBoxMessageHandler", "MaildirFolderHandler", "MaildirMessageHandler",
+             "PYGHandler", "ExecHandler"}
+
+
+def mask(b, zipside):
+    if zipside:
+        b = b.replace(b"XT.zip", b"XT")
+    b = gen.mask_times(b)
+    # a timestamp line may also be absent altogether: directories inside an archive carry no
+    # time at all (stat gives 0), and Gopher+ omits Mod-Date for a zero time
+    b = b.replace(b" Mod-Date: <T>\r\n", b"").replace(b"Last-Modified: <T>\r\n", b"")
+    return b
+
+
+def drop_lines(b, needles):
+    if not needles:
+        return b
+    keep = []
+    for line in b.split(b"\n"):
+        if any(n in line for n in needles):
+            continue
+        keep.append(line)
+    return b"\n".join(keep)
+
+
+def needle_forms(sel):
+    """how a selector may appear inside a listing line: raw bytes and percent-encoded"""
+    raw = gen.sel_bytes(sel)
+    import urllib.parse
+    q = urllib.parse.quote_from_bytes(raw).encode()
+    import html
+    h = html.escape(sel, quote=True).encode("utf-8", "surrogateescape")
+    return {raw, q, h}
+
+
+def without_real_only(handlers):
+    drop = ("mbox.MaildirFolderHandler", "mbox.MaildirMessageHandler", "mbox.MBoxMessageHandler",
+            "mbox.MBoxFolderHandler", "pyg.PYGHandler", "scriptexec.ExecHandler")
+    items = [h.strip() for h in handlers.strip()[1:-1].split(",")]
+    return "[" + ", ".join(h for h in items if h not in drop) + "]"
+
+
+def part_oracle(chk, tier):
+    """The archive side runs with the full handler list; the extracted tree is served with the same list
+    minus the real-file-only handlers (mailboxes, scripts, PYG): that is what the property says an archive
+    has to look like.  Every other byte has to agree after masking the prefix and the timestamps."""
+    rng = chk.rng
+    found = False
+    ntrees = 16 if tier == "thorough" else 4
+    feats = [("symlinks", "mbox", "exec", "maildir", "links"), ("utf8", "raw", "symlinks", "gophermap", "mbox"),
+             ("pyg", "exec", "utf8noflag", "utf8", "symlinks"), ("gophermap", "links", "symlinks")]
+    protos = gen.PROTOCOLS
+    jobs, meta = [], []
+    for i in range(ntrees):
+        tree = G.gen_tree(rng, feats[i % len(feats)])
+        members = G.members_of(tree, rng, ["tree", "shuffle", "links_first"][i % 3])
+        sels = G.tree_selectors(tree, rng, extra=4)
+        sels = [p for p in sels if "//" not in p and not p.startswith("/")]
+        extra = []
+        for e in tree:
+            if e["path"].endswith("mail.mbox"):
+                extra += [e["path"] + "|/MBOX-MESSAGE/1", e["path"] + "|/MBOX-MESSAGE/7"]
+            if e["path"].endswith("/md") or e["path"] == "md":
+                extra += [e["path"] + "|/MAILDIR-MESSAGE/1"]
+            if e["path"].endswith("run.sh"):
+                extra += [e["path"] + "?arg"]
+        climbers = ["../outside.txt", "a.txt/../../outside.txt", "./a.txt", "dir1//a.txt", "..", "x\x00y"]
+        allsels = sels + extra + climbers
+        for handlers, hname in ((ZIP_FIRST, "zip-first"), (ZIP_LATE, "zip-late")):
+            zacts, tacts, plan = [], [], []
+            for p in allsels:
+                tsel = TSEL + ("/" + p if p else "")
+                zsel = ZSEL + ("/" + p if p else "")
+                zacts.append({"do": "handler", "sel": zsel})
+                tacts.append({"do": "handler", "sel": tsel})
+                plist = protos if hname == "zip-first" else rng.sample(protos, 3)
+                for proto in plist:
+                    if proto in ("gopher", "sgopher", "gopherplus", "sgopherplus") and (p != p.strip() or "\t" in p):
+                        continue
+                    gp = rng.choice(["+", "!", "$"])
+                    d1, tls = gen.request_bytes(proto, tsel, gplus=gp)
+                    d2, _ = gen.request_bytes(proto, zsel, gplus=gp)
+                    tacts.append({"do": "req", "data": gen.lat(d1), "tls": tls})
+                    zacts.append({"do": "req", "data": gen.lat(d2), "tls": tls})
+                    plan.append((p, proto, gp, len(zacts) - 1, gen.lat(d1), gen.lat(d2), tls))
+            common_kw = dict(extra_root=[{"path": "outside.txt", "data": "OUTSIDE\n"}],
+                             cwd_files=[{"path": "mail.mbox", "data": G.MBOX.replace("one", "CWD-OUTSIDE")}])
+            jobs.append(job_for(tree, members, zacts, handlers=handlers, **common_kw))
+            jobs.append(job_for(tree, members, tacts, handlers=without_real_only(handlers), **common_kw))
+            meta.append((tree, members, allsels, plan, hname, handlers))
+    res = impl_run_parallel(jobs, chunks=min(16, len(jobs)))
+    nreq = ndiff = nreal = 0
+    for k, (tree, members, allsels, plan, hname, handlers) in enumerate(meta):
+        rz_job, rt_job = res[2 * k], res[2 * k + 1]
+        for r in (rz_job, rt_job):
+            if not r["ok"]:
+                raise RuntimeError(r["err"] + "\n" + r.get("tb", ""))
+        zout, tout = rz_job["res"], rt_job["res"]
+        zacts, tacts = zout["actions"], tout["actions"]
+        # handler choice inside the archive
+        idx = 0
+        for p in allsels:
+            zc = zacts[idx]["chain"]
+            idx += 1 + len([1 for q in plan if q[0] == p])
+            inner = zc[1:] if zc and zc[0] == "ZIPHandler" else []
+            chk.count(("handler", hname, json.dumps(members[:3]), p), nontrivial=bool(inner))
+            bad = [h for h in inner if h in REAL_ONLY]
+            if bad:
+                found = True
+                nreal += 1
+                chk.violation({"what": "a handler that needs a real file is chosen for a member of a ZIP archive "
+                                       "(its test on self.vfs is true for VFSZip, a subclass of VFS_Real, or it has none)",
+                               "selector": ZSEL + "/" + p, "handler_chain": zc, "handler_list": hname,
+                               "members": members, "config": config_for(handlers),
+                               "created_in_server_cwd": zout["cwd_created"]}, tag="D19-real-only-handler-in-zip:" + bad[0])
+        for p, proto, gp, ai, d1, d2, tls in plan:
+            rt, rz = tacts[ai], zacts[ai]
+            nreq += 2
+            a = mask(rt["out"].encode("latin-1"), False)
+            b = mask(rz["out"].encode("latin-1"), True)
+            nf = gen.notfound_class(proto, rt["out"].encode("latin-1"))
+            chk.count(("req", hname, proto, gp, p, json.dumps(members[:3])), nontrivial=not nf)
+            if ("|" in p or "?" in p) and nf:
+                # virtual-folder arguments on something that is not a real mailbox/script: both sides have
+                # to refuse; the wording of the refusal is not part of the tree
+                same = gen.notfound_class(proto, rz["out"].encode("latin-1"))
+            else:
+                same = a == b
+            if not same:
+                ndiff += 1
+                found = True
+                chk.violation({"what": "the answer for a selector into the archive differs from the answer for the "
+                                       "same selector into the extracted tree (selector prefix and timestamps masked; "
+                                       "tree served without the real-file-only handlers)",
+                               "protocol": proto, "gopherplus_suffix": gp, "member_path": p, "handler_list": hname,
+                               "request_tree_latin1": d1, "request_zip_latin1": d2, "tls": tls,
+                               "response_tree": a.decode("latin-1")[:1500], "response_zip": b.decode("latin-1")[:1500],
+                               "exception_zip": rz.get("exc"), "log_zip": rz.get("log"),
+                               "tree": tree, "members": members, "pruned_links": zout["pruned"],
+                               "config": config_for(handlers)},
+                              tag=classify_request_diff(tree, p, rz))
+        if zout["cwd_created"]:
+            found = True
+            chk.violation({"what": "requests into an archive created files in the server's working directory",
+                           "created": zout["cwd_created"], "members": members, "handler_list": hname},
+                          tag="D19-writes-in-cwd")
+    chk.coverage["oracle"] = {"trees": ntrees, "handler_lists": 2, "requests": nreq, "response_differences": ndiff,
+                              "real_only_handler_inside_archive": nreal, "protocols": protos,
+                              "masked": ["'XT.zip' -> 'XT' in the archive's answers",
+                                         "Last-Modified / Mod-Date lines (value, and presence: archive directories have time 0)",
+                                         "the extracted tree is served without the real-file-only handlers",
+                                         "wording of the refusal for selectors with |/? arguments"]}
+    if meta:
+        p, proto, gp, ai, d1, d2, tls = meta[-1][3][len(meta[-1][3]) // 2]
+        chk.sample({"kind": "request pair", "protocol": proto, "request_tree_latin1": d1, "request_zip_latin1": d2,
+                    "response_zip_latin1": res[-2]["res"]["actions"][ai]["out"][:200]})
+    return found
+
+
+def classify_request_diff(tree, p, rz):
+    """stable tag for a response difference: by what the member path runs through"""
+    by_path = {e["path"]: e for e in tree}
+    parts = p.split("|")[0].split("?")[0].split("/") if p else []
+    for i in range(1, len(parts) + 1):
+        e = by_path.get("/".join(parts[:i]))
+        if e and e["kind"] == "link":
+            return "zip-link-differs"
+    e = by_path.get(p)
+    if e and e["kind"] == "dir" or p == "":
+        # a listing that differs because of a link child?
+        return "zip-listing-differs"
+    return "zip-response-differs"
+
+
 def run(tier):
     chk = Check("C16", tier)
-    chk.proofs(extra_files=["Corr/K16.v"])
+    chk.proofs(extra_files=["Corr/K16.v", "Corr/T16.v"])
     found = part_k(chk, tier)
+    found = part_oracle(chk, tier) or found
     chk.finish_proofs(found)
     return chk.finish("proof")
